@@ -122,6 +122,8 @@ type FnCtx struct {
 	seeds []string
 	termSorts map[string]string
 	known map[string]map[string]string // heap version -> alloc address -> stored value (syntactic store forwarding)
+	heapTy map[string]types.Type // value type of each heap array (element type for Elems)
+	known2 map[string]map[string]string // Elems heap version -> alloc region -> inner array term
 	skolemFacts []string
 }
 
@@ -144,7 +146,7 @@ func (c *FnCtx) assume(cond string) {
 	if cond == "true" || c.discover {
 		return
 	}
-	c.items = append(c.items, item{kind: "assert", text: implies(c.reach, cond)})
+	c.items = append(c.items, item{kind: "assert", text: fold(implies(c.reach, cond))})
 }
 
 // define adds an unguarded fact (definition of a fresh symbol).
@@ -152,7 +154,7 @@ func (c *FnCtx) define(cond string) {
 	if cond == "true" || c.discover {
 		return
 	}
-	c.items = append(c.items, item{kind: "assert", text: cond})
+	c.items = append(c.items, item{kind: "assert", text: fold(cond)})
 }
 
 func (c *FnCtx) posString() string {
@@ -226,6 +228,7 @@ func (c *FnCtx) checkFull(kind, desc, guard, cond, assumeAfter string, pre []str
 	if c.fc != nil {
 		ob.Timeout = c.fc.Timeout
 	}
+	cond, assumeAfter = fold(cond), fold(assumeAfter)
 	c.items = append(c.items, item{kind: "check", text: and(guard, not(cond)), ob: ob, pre: pre})
 	c.obs = append(c.obs, ob)
 	// after checking, later code may rely on it
@@ -405,6 +408,7 @@ func (c *FnCtx) fieldHeap(t types.Type, i int) string {
 	if _, ok := c.heap[name]; !ok {
 		fs := c.sortOf(st.Field(i).Type())
 		c.decl("(declare-const " + name + " (Array Int " + fs + "))")
+		c.heapTy[name] = st.Field(i).Type()
 		c.heap[name] = name
 		if c.entry != nil {
 			if _, ok := c.entry[name]; !ok {
@@ -419,6 +423,7 @@ func (c *FnCtx) cellHeap(t types.Type) string {
 	name := sym("Cell " + typeName(t))
 	if _, ok := c.heap[name]; !ok {
 		c.decl("(declare-const " + name + " (Array Int " + c.sortOf(t) + "))")
+		c.heapTy[name] = t
 		c.heap[name] = name
 		if c.entry != nil {
 			if _, ok := c.entry[name]; !ok {
@@ -433,6 +438,7 @@ func (c *FnCtx) elemsHeap(t types.Type) string {
 	name := sym("Elems " + typeName(t))
 	if _, ok := c.heap[name]; !ok {
 		c.decl("(declare-const " + name + " (Array Int (Array " + c.mode.idxSort() + " " + c.sortOf(t) + ")))")
+		c.heapTy[name] = t
 		c.heap[name] = name
 		if c.entry != nil {
 			if _, ok := c.entry[name]; !ok {
@@ -554,6 +560,12 @@ type location struct {
 
 // resolve turns a pointer Val into a location.
 func (c *FnCtx) resolve(p Val) location {
+	l := c.resolve0(p)
+	l.a1, l.a2, l.cellAddr = fold(l.a1), fold(l.a2), fold(l.cellAddr)
+	return l
+}
+
+func (c *FnCtx) resolve0(p Val) location {
 	pt, ok := p.Ty.Underlying().(*types.Pointer)
 	if !ok {
 		c.unsup("resolve of non-pointer %s", p.Ty)
@@ -682,9 +694,11 @@ func (c *FnCtx) loadLoc(l location, h Heap) string {
 			return kv
 		}
 	}
-	v := sel(cur, l.a1)
+	var v string
 	if l.a2 != "" {
-		v = sel(v, l.a2)
+		v = sel(c.regionArr(h, l.arr, l.a1), l.a2)
+	} else {
+		v = sel(cur, l.a1)
 	}
 	return c.project(v, l.projT, l.proj)
 }
@@ -727,7 +741,7 @@ func (c *FnCtx) loadCell(addr string, t types.Type, h Heap) string {
 			}
 			return v
 		}
-		return sel(c.heapTerm(h, c.elemsHeap(et)), addr)
+		return c.regionArr(h, c.elemsHeap(et), addr)
 	}
 	c.unsup("loadCell %s", t)
 	return ""
@@ -759,7 +773,7 @@ func (c *FnCtx) storeCell(addr string, t types.Type, v string) {
 			return
 		}
 		name := c.elemsHeap(et)
-		c.setHeap(name, sto(c.heap[name], addr, v))
+		c.setRegion(name, addr, v)
 	default:
 		c.unsup("storeCell %s", t)
 	}
@@ -788,10 +802,10 @@ func (c *FnCtx) storeLoc(l location, v string) {
 		return
 	}
 	if l.a2 != "" {
-		inner := sel(cur, l.a1)
+		inner := c.regionArr(c.heap, l.arr, l.a1)
 		old := sel(inner, l.a2)
 		nv := c.updateProj(old, l.projT, l.proj, v)
-		c.setHeap(l.arr, sto(cur, l.a1, sto(inner, l.a2, nv)))
+		c.setRegion(l.arr, l.a1, sto(inner, l.a2, nv))
 		return
 	}
 	old := sel(cur, l.a1)
@@ -813,4 +827,92 @@ func heapNamesSorted(hs ...Heap) []string {
 	}
 	sort.Strings(out)
 	return out
+}
+
+// regionArr returns the element array of region reg in Elems heap `name` of heap h,
+// using the syntactically known content of freshly allocated regions when available.
+func (c *FnCtx) regionArr(h Heap, name, reg string) string {
+	cur := c.heapTerm(h, name)
+	reg = fold(reg)
+	if kv, ok := c.known2[cur][reg]; ok {
+		return kv
+	}
+	return sel(cur, reg)
+}
+
+// oldRegion: true if the region term certainly denotes a region that existed at function entry.
+func oldRegion(reg string) bool {
+	return strings.HasPrefix(reg, "(s_reg p_") || strings.HasPrefix(reg, "(s_reg |p_")
+}
+
+// setRegion replaces the element array of region reg.
+func (c *FnCtx) setRegion(name, reg, arr string) {
+	reg = fold(reg)
+	cur := c.heap[name]
+	if c.discover {
+		c.setHeap(name, "")
+		return
+	}
+	// name the inner array
+	srt := c.heapSort(name)
+	inner := strings.TrimSuffix(strings.TrimPrefix(srt, "(Array Int "), ")")
+	an := c.fresh("arr", inner)
+	c.define(eq(an, arr))
+	c.setHeap(name, sto(cur, reg, an))
+	m := map[string]string{}
+	if isAllocConst(reg) || oldRegion(reg) {
+		for k, x := range c.known2[cur] {
+			m[k] = x
+		}
+	}
+	if isAllocConst(reg) {
+		m[reg] = an
+	}
+	c.known2[c.heap[name]] = m
+}
+
+// mergeKnown carries syntactic knowledge about fresh cells/regions across a control-flow merge.
+func (c *FnCtx) mergeKnown(merged string, conds []string, versions []string, isElems bool, srt string) {
+	tbl := c.known
+	if isElems {
+		tbl = c.known2
+	}
+	first := tbl[versions[0]]
+	if len(first) == 0 {
+		return
+	}
+	out := map[string]string{}
+	for k, v0 := range first {
+		vals := []string{v0}
+		ok := true
+		for _, ver := range versions[1:] {
+			v, has := tbl[ver][k]
+			if !has {
+				ok = false
+				break
+			}
+			vals = append(vals, v)
+		}
+		if !ok {
+			continue
+		}
+		same := true
+		for _, v := range vals[1:] {
+			if v != vals[0] {
+				same = false
+			}
+		}
+		if same {
+			out[k] = vals[0]
+			continue
+		}
+		m := vals[len(vals)-1]
+		for i := len(vals) - 2; i >= 0; i-- {
+			m = ite(conds[i], vals[i], m)
+		}
+		n := c.fresh("mk", srt)
+		c.define(eq(n, m))
+		out[k] = n
+	}
+	tbl[merged] = out
 }
